@@ -255,6 +255,18 @@ def merge_cases(run: Run):
             for _ in range(3000):
                 combo = [rng.randrange(len(alpha)) for _ in range(rng.randint(4, 5))]
                 cases.append({"c": {"nq": nq, "nb": 1, "stmts": [W.w_stmt(alpha[i]()) for i in combo]}, "band": False, "ex": False})
+    # lone named rotations whose operation coincides with a parameter-free default gate (must keep name and parameter)
+    import opensquirrel.default_gates as _dg
+    from opensquirrel.ir import Float as _F
+    for name, th in [("Rx", math.pi / 2), ("Ry", math.pi / 2), ("Rz", math.pi / 2), ("Rz", math.pi / 4), ("Rx", -math.pi / 2), ("Rz", -math.pi / 4), ("Rx", math.pi), ("Rz", 0.78539816)]:
+        for tail in ([], [W.w_stmt(_dg.CNOT(0, 1))], [g.measure(0, 0)]):
+            for head in ([], [W.w_stmt(_dg.CNOT(1, 0))]):
+                cases.append({"c": {"nq": 2, "nb": 1, "stmts": head + [W.w_stmt(getattr(_dg, name)(0, _F(th)))] + tail}, "band": False, "ex": False})
+    # the only single-qubit gate of the circuit is an identity
+    for idg in [_dg.I(0), _dg.Rx(0, _F(2 * math.pi)), _dg.Rz(1, _F(0.0))]:
+        for extra in ([], [W.w_stmt(_dg.CNOT(0, 1))], [W.w_stmt(_dg.CNOT(0, 1)), g.measure(0, 0)]):
+            cases.append({"c": {"nq": 2, "nb": 1, "stmts": [W.w_stmt(idg)] + extra}, "band": False, "ex": False})
+            cases.append({"c": {"nq": 2, "nb": 1, "stmts": extra + [W.w_stmt(idg)]}, "band": False, "ex": False})
     # random circuits with cancellation structure
     from opensquirrel.ir import BlochSphereRotation
     for i in range(run.n(150, 4000)):
@@ -330,7 +342,7 @@ def run_merge(run: Run, want_c02: bool, want_c14: bool):
                 sa, sb = split_segments(per_qubit_trace(a["stmts"], q)), split_segments(per_qubit_trace(b["stmts"], q))
                 if len(sa) != len(sb): continue
                 for x, y in zip(sa, sb):
-                    if len(x) == 1 and is_bsr_stmt(x[0]) and x[0]["nm"] is not None and not is_identity_gate(x[0]["g"]):
+                    if len(x) == 1 and is_bsr_stmt(x[0]) and x[0]["nm"] is not None and not is_identity_gate(x[0]["g"], 3e-7):   # out of the identity band
                         if len(y) != 1 or y[0]["nm"] is None or W.diff(y[0]["nm"], x[0]["nm"], 0.0):
                             run.violation(f"a single-qubit gate with nothing to fuse with lost its name/parameters ({x[0]['nm']['name']})", c)
 
